@@ -147,6 +147,7 @@ func (p *StreamPool) connections() []*connection {
 		conns = append(conns, conn)
 	}
 	p.mu.RUnlock()
+	conns = verifOrderConns(conns)
 	return conns
 }
 
@@ -193,6 +194,7 @@ func (p *StreamPool) getConnection(k key, end bool, ts time.Time, tcp *layers.TC
 	if s == nil {
 		return nil, nil, nil
 	}
+	verifYield("getConnection:before-insert")
 	p.mu.Lock()
 	defer p.mu.Unlock()
 	conn, half, rev = p.newConnection(k, s, ts)
